@@ -887,11 +887,17 @@ void run_c16_api(Judge& j, uint64_t n) {
         auto compose = [&]() { std::string s; int parts = (int)rng.range(1, 5); for (int k = 0; k < parts; ++k) s += rng.pick(frag); return s; };
         auto str_ok = [](const std::string& x) { return x.size() <= 65535 && ref::utf8_class(x) == ref::Utf8::clean; };
         vt t = connected ? 1 * SEC : 10 * MS;
-        for (int k = 0; k < 12; ++k) {
+        // validation does not depend on what the CONNACK announced: a Topic Alias Maximum (a valid alias must not switch the
+        // other property checks off), and a small Maximum Packet Size met by an ill-formed DISCONNECT that exceeds it
+        unsigned tam = 0; if (connected && rng.chance(1, 2)) { tam = 10; sc.bcfg.caps.topic_alias_maximum = 10; }
+        bool disc_only = connected && rng.chance(1, 6);
+        if (disc_only) sc.bcfg.caps.maximum_packet_size = (uint32_t)rng.pick(std::vector<int>{20, 30, 60});
+        for (int k = disc_only ? 11 : 0; k < 12; ++k) {
             Action a; a.at = t; t += 1 * MS; a.raw_topic = true;
-            int what = (int)rng.below(12);
+            int what = disc_only ? 11 : (int)rng.below(12);
             if (what == 11 && k != 11) what = (int)rng.below(11);   // a disconnect only as the last request of the script
             std::string s = compose();
+            if (disc_only) while (s.size() < 70) s += compose();
             if (rng.chance(1, 30)) s = std::string(rng.pick(std::vector<size_t>{65535, 65536}), 'a');
             else if (rng.chance(1, 30)) s.clear();
             switch (what) {
@@ -914,6 +920,7 @@ void run_c16_api(Judge& j, uint64_t n) {
                 case 10: {  // publish: a Subscription Identifier is not a property a client may send in PUBLISH
                     a.kind = Action::publish; a.qos = (int)rng.below(3); a.topic = "ok/sid"; a.payload = "p";
                     ref::Prop p; p.id = 0x0B; p.num = rng.pick(std::vector<uint64_t>{1, 5, 268435455}); a.props.push_back(p);
+                    if (tam && rng.chance(1, 2)) { ref::Prop al; al.id = 0x23; al.num = rng.range(1, tam); a.props.push_back(al); }
                     a.expect_immediate = true; a.expect_ec = 100;
                     break;
                 }
@@ -940,6 +947,7 @@ void run_c16_api(Judge& j, uint64_t n) {
                     else if (which == 1) { p.id = 0x08; p.s1 = s; ok = ref::topic_name_ok(s); }
                     else { p.id = 0x26; p.s1 = rng.chance(1, 2) ? s : "k"; p.s2 = p.s1 == s ? "v" : s; ok = s.size() <= 65535 && ref::utf8_class(s) == ref::Utf8::clean; }
                     a.props.push_back(p);
+                    if (tam && rng.chance(1, 2)) { ref::Prop al; al.id = 0x23; al.num = rng.range(1, tam); a.props.push_back(al); }
                     a.expect_immediate = !ok; a.expect_ec = ok ? 0 : 100;
                     break;
                 }
